@@ -17,25 +17,45 @@ directions of a TCP session as offset pipelines, half-close, back-pressure), spe
    finding FrontFinDrops the same trace is validated with no deviation too and must then be rejected
    at a client-half-close run (that is the finding, reproduced).
 5. Canary: a corrupted copy of the trace must be rejected (the trace spec cannot accept anything).
+
+Hole closure (seeds C18-11/12/21/22), see design_notes/C18.md "Hole closed":
+ * header classes are enumerated by TOTAL length (HdrLens) around every constant of the code (16, 28, 52,
+   216, 232) for every family, plus a sweep over every length 16..240 (cut right after the header);
+ * edge-triggered readiness (fev) and a backend that accepts late (SlowConnect, Backend_Up) are part of
+   ProxyProtocol.tla; the replayer holds the backend's accept queue full to concretise it;
+ * paced sessions in drive_tcp: silent / crawling readers, transfers beyond every buffer of the path,
+   small kernel buffers on the worker's own sockets, end of stream while bytes are pending;
+ * self-test switches (ExpectMaxRefused, SwitchDropsReadable, FinOvertakesBuffered, BlockedHupCloses)
+   must be refuted by TLC in every run.
 """
 import json
 import os
 import re
+from concurrent.futures import ThreadPoolExecutor
 
 import vlib
 
 PID = "C18"
 PP_DEVS = {"ExpectOverRead", "ExpectPanic", "RelayWedge", "UnixRejected"}
 RELAY_DEVS = {"FrontFinDrops"}
+# self-test switches: defect classes the legs must be able to see; never open findings
+PP_SELFTEST = ["ExpectMaxRefused", "SwitchDropsReadable"]
+RELAY_SELFTEST = ["FinOvertakesBuffered", "BlockedHupCloses"]
+# total header lengths around every constant of the code: fixed part 16, INET 28, INET6 52, the 216-byte
+# address block, the 232-byte limit of the expect state (and one comfortably beyond)
+EDGE_LENS = [16, 17, 27, 28, 29, 51, 52, 53, 215, 216, 217, 231, 232, 233, 240]
+ALL_LENS = list(range(16, 241))
 
 PP_CFG = """SPECIFICATION %(spec)s
 CONSTANTS
   Deviations = %(dev)s
   TlvLens = %(tlv)s
+  HdrLens = %(hdrlens)s
+  SlowConnect = %(slowc)s
   Payloads = %(pay)s
   MaxSeg = %(maxseg)d
   CutMode = "%(cut)s"
-  Modes = {"send", "expect", "relay"}
+  Modes = %(modes)s
   Emit = %(emit)s
 %(checks)s
 CHECK_DEADLOCK FALSE
@@ -78,11 +98,13 @@ def write(path, text):
     return path
 
 
-def pp_cfg(wd, name, dev, tlv, pay, maxseg, cut, emit=False, live=False, spec="Spec"):
+def pp_cfg(wd, name, dev, tlv, pay, maxseg, cut, emit=False, live=False, spec="Spec", hdrlens=(), slowc=False,
+           modes=("send", "expect", "relay")):
     checks = "INVARIANTS EmitBehaviour" if emit else (PP_CHECKS + ("\n" + PP_LIVE if live else ""))
     return write(os.path.join(wd, name), PP_CFG % {
         "spec": spec, "dev": tla_set(dev), "tlv": tla_set(tlv), "pay": tla_set(pay), "maxseg": maxseg,
-        "cut": cut, "emit": "TRUE" if emit else "FALSE", "checks": checks})
+        "cut": cut, "emit": "TRUE" if emit else "FALSE", "checks": checks, "hdrlens": tla_set(sorted(hdrlens)),
+        "slowc": "TRUE" if slowc else "FALSE", "modes": tla_set(list(modes))})
 
 
 def stuck_run(out):
@@ -127,6 +149,31 @@ def replay_violations(rep, out, what):
     return summ
 
 
+def par(jobs):
+    """run the thunks concurrently (each is a TLC or harness subprocess); results in order; first error wins"""
+    with ThreadPoolExecutor(max_workers=max(1, len(jobs))) as ex:
+        futs = [ex.submit(j) for j in jobs]
+        return [f.result() for f in futs]
+
+
+def drop_run(trace, run, out):
+    """copy of the trace without the events of one run"""
+    with open(trace) as f, open(out, "w") as g:
+        for line in f:
+            try:
+                o = json.loads(line)
+            except ValueError:
+                continue
+            if o.get("run") != run:
+                g.write(line)
+    return out
+
+
+def stuck_heads(out):
+    m = re.search(r'"STUCK-HEADS",(.*?)(?:Model checking|$)', out, re.S)
+    return re.sub(r"\s+", " ", m.group(1)) if m else ""
+
+
 def run(tier, replay=None):
     rep = vlib.Report(PID, tier)
     wd = vlib.workdir(PID)
@@ -136,7 +183,7 @@ def run(tier, replay=None):
     pp_open = [d for d in devs if d in PP_DEVS]
     relay_open = [d for d in devs if d in RELAY_DEVS]
     workers = 16 if thorough else 8
-    tlv = [0, 1, 24, 25, 200, 217]
+    tlv = [0, 1]
 
     # ---- replay of one saved violation ---------------------------------------------------------
     if replay:
@@ -150,16 +197,19 @@ def run(tier, replay=None):
         with open(replay) as f:
             v = json.load(f)
         beh = os.path.join(wd, "one.ndjson")
-        # the codec table of the full TLV range is needed for the class of the behaviour
-        g2 = vlib.tlc("ProxyProtocol", pp_cfg(wd, "gen2.cfg", pp_open, tlv, [0], 1, "edges", emit=True), PID, workers=4,
-                      timeout=600, want_replay=True)
+        # the codec table of the class of the behaviour is needed
+        h = (v.get("behaviour") or {}).get("hdr") or {}
+        hl = [(v.get("behaviour") or {}).get("hlen", 16)] if h.get("kind") == "ok" else []
+        g2 = vlib.tlc("ProxyProtocol", pp_cfg(wd, "gen2.cfg", pp_open, tlv, [0], 1, "edges", emit=True, hdrlens=EDGE_LENS + hl),
+                      PID, workers=4, timeout=600, want_replay=True)
         with open(beh, "w") as f:
             for o in g2["replays"]:
                 if o.get("kind") != "beh":
                     f.write(json.dumps(o) + "\n")
             if "behaviour" in v:
                 f.write(json.dumps(v["behaviour"]) + "\n")
-        out = vlib.run_harness(bins["replay_tcp"], ["--seed", str(vlib.seed()), "--threads", "1", "--per-class", "1000"],
+        out = vlib.run_harness(bins["replay_tcp"], ["--seed", str(vlib.seed()), "--threads", "1", "--per-class", "1000",
+                                                    "--late", "1000", "--late-threads", "1"],
                                stdin_path=beh, timeout=600)
         summ = replay_violations(rep, out, "replay_tcp")
         print(json.dumps(summ, indent=1)[:3000])
@@ -167,31 +217,56 @@ def run(tier, replay=None):
         rep.finish()
 
     # ---- 1. design level ------------------------------------------------------------------------
-    r = vlib.tlc("ProxyProtocol", pp_cfg(wd, "pp_mc.cfg", [], tlv, [0, 3], 3, "edges"), PID, workers=workers,
-                 timeout=1500, coverage=thorough)
-    rep.add_tlc(r)
-    if r["violated"]:
-        rep.violation("spec:" + r["violated"], "ProxyProtocol.tla itself violates %s" % r["violated"], r["out"][-4000:])
+    # header classes by total length around every constant of the code; then the same machines with a
+    # backend that accepts late (SlowConnect): both at once, half the workers each
+    def mc_main():
+        return vlib.tlc("ProxyProtocol", pp_cfg(wd, "pp_mc.cfg", [], tlv, [0, 3], 3, "edges", hdrlens=EDGE_LENS), PID,
+                        workers=workers // 2, timeout=1500, coverage=thorough)
+
+    def mc_late():
+        return vlib.tlc("ProxyProtocol", pp_cfg(wd, "pp_mc_late.cfg", [], tlv, [0, 3], 3, "edges", slowc=True), PID,
+                        workers=workers // 2, timeout=1500, coverage=thorough)
+
+    r, rlate = par([mc_main, mc_late])
+    for x, what in ((r, "ProxyProtocol.tla"), (rlate, "ProxyProtocol.tla (backend accepts late)")):
+        rep.add_tlc(x)
+        if x["violated"]:
+            rep.violation("spec:" + x["violated"], "%s itself violates %s" % (what, x["violated"]), x["out"][-4000:])
     if thorough:
         vlib.require_actions_covered(r, ["Expect_Readable", "Relay_Readable", "Relay_BackWritable", "Send_Step",
-                                         "Pipe_Forward", "ClientStep", "Timeout"])
+                                         "Pipe_Read", "Pipe_Write", "ClientStep", "Timeout"])
+        vlib.require_actions_covered(rlate, ["Backend_Up", "Relay_BackWritable", "Send_Step", "Pipe_Read", "Pipe_Write"])
         # every single split position of every header class (2 segments), all byte positions
-        r2 = vlib.tlc("ProxyProtocol", pp_cfg(wd, "pp_mc_all.cfg", [], tlv, [0, 1, 2, 3], 2, "all"), PID, workers=workers,
-                      timeout=2400)
+        r2 = vlib.tlc("ProxyProtocol", pp_cfg(wd, "pp_mc_all.cfg", [], tlv, [0, 1, 2, 3], 2, "all", hdrlens=EDGE_LENS), PID,
+                      workers=workers, timeout=2400)
         rep.add_tlc(r2)
         if r2["violated"]:
             rep.violation("spec:" + r2["violated"], "ProxyProtocol.tla (all cut positions) violates %s" % r2["violated"],
                           r2["out"][-4000:])
+        # every total length 16..240 of every family, cut near the field / window edges
+        r3 = vlib.tlc("ProxyProtocol", pp_cfg(wd, "pp_mc_lens.cfg", [], [], [0, 3], 2, "edges", hdrlens=ALL_LENS), PID,
+                      workers=workers, timeout=2400)
+        rep.add_tlc(r3)
+        if r3["violated"]:
+            rep.violation("spec:" + r3["violated"], "ProxyProtocol.tla (all header lengths) violates %s" % r3["violated"],
+                          r3["out"][-4000:])
+
     # liveness: unacceptable headers end closed (small instance, fairness)
-    rl = vlib.tlc("ProxyProtocol", pp_cfg(wd, "pp_live.cfg", [], [0, 217], [3], 2, "edges", live=True, spec="FairSpec"),
-                  PID, workers=workers, timeout=1500)
+    def mc_live():
+        return vlib.tlc("ProxyProtocol", pp_cfg(wd, "pp_live.cfg", [], [0, 217], [3], 2, "edges", live=True, spec="FairSpec",
+                                                hdrlens=[232, 233]),
+                        PID, workers=workers // 2, timeout=1500)
+
+    sizes = dict(maxbytes=4, b=2, k=2) if thorough else dict(maxbytes=3, b=2, k=1)
+
+    def mc_relay():
+        return vlib.tlc("TcpRelay", write(os.path.join(wd, "relay_mc.cfg"), RELAY_CFG % dict(dev=tla_set([]), **sizes)), PID,
+                        workers=workers // 2, timeout=2400, coverage=thorough)
+
+    rl, rr = par([mc_live, mc_relay])
     rep.add_tlc(rl)
     if rl["violated"]:
         rep.violation("spec:" + rl["violated"], "ProxyProtocol.tla violates %s under fairness" % rl["violated"], rl["out"][-4000:])
-
-    sizes = dict(maxbytes=4, b=2, k=2) if thorough else dict(maxbytes=3, b=2, k=1)
-    rr = vlib.tlc("TcpRelay", write(os.path.join(wd, "relay_mc.cfg"), RELAY_CFG % dict(dev=tla_set([]), **sizes)), PID,
-                  workers=workers, timeout=2400, coverage=thorough)
     rep.add_tlc(rr)
     if rr["violated"]:
         rep.violation("spec:" + rr["violated"], "TcpRelay.tla itself violates %s" % rr["violated"], rr["out"][-4000:])
@@ -199,17 +274,25 @@ def run(tier, replay=None):
         vlib.require_actions_covered(rr, ["Peer_Write", "Peer_Fin", "Peer_Read", "Peer_Eof", "Sozu_Read", "Sozu_Write",
                                           "Sozu_SeeFin", "Sozu_CloseAfterFin"])
 
-    # ---- 2. each open deviation still breaks the property in the model ---------------------------
-    for d in devs:
-        if d in PP_DEVS:
-            rd = vlib.tlc("ProxyProtocol", pp_cfg(wd, "pp_dev.cfg", [d], [0, 1], [3], 2, "edges"), PID, workers=4, timeout=600)
-        else:
-            rd = vlib.tlc("TcpRelay", write(os.path.join(wd, "relay_dev.cfg"),
-                                            RELAY_CFG % dict(dev=tla_set([d]), maxbytes=2, b=1, k=1)), PID, workers=4, timeout=600)
+    # ---- 2. each open deviation, and each self-test switch, breaks the property in the model --------
+    def dev_job(d):
+        def job():
+            if d in PP_DEVS:
+                return vlib.tlc("ProxyProtocol", pp_cfg(wd, "pp_dev_%s.cfg" % d, [d], [0, 1], [3], 2, "edges"), PID, workers=2, timeout=600)
+            if d in PP_SELFTEST:
+                return vlib.tlc("ProxyProtocol", pp_cfg(wd, "pp_dev_%s.cfg" % d, [d], [0], [3], 2, "edges", hdrlens=[231, 232, 233],
+                                                        slowc=True), PID, workers=2, timeout=600)
+            return vlib.tlc("TcpRelay", write(os.path.join(wd, "relay_dev_%s.cfg" % d),
+                                              RELAY_CFG % dict(dev=tla_set([d]), maxbytes=2, b=1, k=1)), PID, workers=2, timeout=600)
+        return job
+
+    switches = list(devs) + PP_SELFTEST + RELAY_SELFTEST
+    for d, rd in zip(switches, par([dev_job(d) for d in switches])):
         rep.add_tlc(rd)
         if not rd["violated"]:
-            raise vlib.ToolError("deviation %s no longer violates P_C18 in the model" % d)
-        vlib.log("deviation %s: TLC counterexample to %s as expected" % (d, rd["violated"]))
+            raise vlib.ToolError("%s %s does not violate P_C18 in the model" % ("deviation" if d in devs else "self-test switch", d))
+        vlib.log("%s %s: TLC counterexample to %s as expected" % ("deviation" if d in devs else "self-test switch", d, rd["violated"]))
+    rep.extra["self_test_switches_refuted"] = PP_SELFTEST + RELAY_SELFTEST
     if thorough:
         # the repaired defects stay distinguishable: switching the old behaviour on must break the property
         for d in sorted(PP_DEVS - set(devs)):
@@ -219,48 +302,92 @@ def run(tier, replay=None):
                 raise vlib.ToolError("old behaviour %s does not violate P_C18 in the model" % d)
 
     # ---- 3. S->I -------------------------------------------------------------------------------
+    # three generator runs at once: (main) length classes x segmentations near the edges; (sweep) EVERY total
+    # length 16..240 of every family, unsplit and cut right after the header, expect + relay; (late) the backend
+    # accepts after k client segments
     beh = os.path.join(wd, "behaviours.ndjson")
-    n_beh = [0]
+    n_beh = {"main": 0, "sweep": 0, "late": 0, "all": 0}
+    import threading
+    wlock = threading.Lock()
     with open(beh, "w") as f:
-        def sink(o):
-            n_beh[0] += 1 if o.get("kind") == "beh" else 0
-            f.write(json.dumps(o) + "\n")
-        g = vlib.tlc("ProxyProtocol", pp_cfg(wd, "pp_gen.cfg", pp_open, tlv, [0, 3], 3, "edges", emit=True), PID,
-                     workers=workers, timeout=1500, want_replay=True, replay_sink=sink)
-        rep.add_tlc(g)
-        if g["violated"]:
-            raise vlib.ToolError("generator run reported a violation: %s" % g["violated"])
+        def sink_for(tag, tables):
+            def sink(o):
+                if o.get("kind") == "beh":
+                    o["gen"] = tag
+                elif not tables:
+                    return
+                with wlock:
+                    if o.get("kind") == "beh":
+                        n_beh[tag] += 1
+                    f.write(json.dumps(o) + "\n")
+            return sink
+
+        def gen_main():
+            return vlib.tlc("ProxyProtocol", pp_cfg(wd, "pp_gen.cfg", pp_open, tlv, [0, 3], 3, "edges", emit=True, hdrlens=EDGE_LENS),
+                            PID, workers=max(2, workers // 2), timeout=1500, want_replay=True, replay_sink=sink_for("main", True))
+
+        def gen_sweep():
+            return vlib.tlc("ProxyProtocol", pp_cfg(wd, "pp_gen_sweep.cfg", pp_open, [], [0, 3] if thorough else [3], 2, "hdr", emit=True,
+                                                    hdrlens=ALL_LENS, modes=("expect", "relay")),
+                            PID, workers=2, timeout=1500, want_replay=True, replay_sink=sink_for("sweep", True))
+
+        def gen_late():
+            return vlib.tlc("ProxyProtocol", pp_cfg(wd, "pp_gen_late.cfg", pp_open, tlv, [3], 3, "edges", emit=True, slowc=True),
+                            PID, workers=2, timeout=1500, want_replay=True, replay_sink=sink_for("late", False))
+
+        for g in par([gen_main, gen_sweep, gen_late]):
+            rep.add_tlc(g)
+            if g["violated"]:
+                raise vlib.ToolError("generator run reported a violation: %s" % g["violated"])
         if thorough:
-            g2 = vlib.tlc("ProxyProtocol", pp_cfg(wd, "pp_gen_all.cfg", pp_open, tlv, [2], 2, "all", emit=True), PID,
-                          workers=workers, timeout=2400, want_replay=True,
-                          replay_sink=lambda o: sink(o) if o.get("kind") == "beh" else None)
+            g2 = vlib.tlc("ProxyProtocol", pp_cfg(wd, "pp_gen_all.cfg", pp_open, tlv, [2], 2, "all", emit=True, hdrlens=EDGE_LENS), PID,
+                          workers=workers, timeout=2400, want_replay=True, replay_sink=sink_for("all", False))
             rep.add_tlc(g2)
-    out = vlib.run_harness(bins["replay_tcp"],
-                           ["--seed", str(vlib.seed()), "--threads", "8", "--per-class", "60" if thorough else "6",
-                            "--slow", "40" if thorough else "6"],
-                           stdin_path=beh, timeout=2400)
+    n_total = sum(n_beh.values())
+
+    # ---- 4a. I->S driver, started now: it runs while the replayer does (both mostly wait) -----------
+    trace = os.path.join(wd, "trace.ndjson")
+    runs = 1200 if thorough else 70
+    paced = 400 if thorough else 64
+    drive_args = ["--seed", str(vlib.seed()), "--runs", str(runs), "--paced", str(paced), "--threads", "6",
+                  "--big", "1" if thorough else "0"]
+
+    def drive():
+        return vlib.run_harness(bins["drive_tcp"], drive_args + ["--out", trace], timeout=2400)
+
+    def replay_leg():
+        return vlib.run_harness(bins["replay_tcp"],
+                                ["--seed", str(vlib.seed()), "--threads", "8", "--per-class", "60" if thorough else "6",
+                                 "--slow", "40" if thorough else "6", "--late", "600" if thorough else "96",
+                                 "--late-threads", "24" if thorough else "16"],
+                                stdin_path=beh, timeout=2400)
+
+    out, dout = par([replay_leg, drive])
     summ = replay_violations(rep, out, "replay_tcp")
-    vlib.log("replay_tcp: %d codec checks on %d classes, %d/%d behaviours executed, %d/%d segment separations confirmed, %.1fs" % (
-        summ["codec_checks"], summ["codec_classes"], summ["executed"], summ["behaviours_in"],
-        summ["separations_confirmed"], summ["separations"], summ["wall_s"]))
+    vlib.log("replay_tcp: %d codec checks on %d classes, %d/%d behaviours executed, %d/%d segment separations confirmed, "
+             "%d late-backend behaviours (%d confirmed slow connects), %.1fs" % (
+                 summ["codec_checks"], summ["codec_classes"], summ["executed"], summ["behaviours_in"],
+                 summ["separations_confirmed"], summ["separations"], summ.get("late_backend", 0),
+                 summ.get("late_backend_confirmed", 0), summ["wall_s"]))
     rep.cov["evaluations"] += summ["codec_checks"]
     rep.add_samples(summ["samples"], 3)
     executed = summ["executed"] + summ.get("http_expect_executed", 0)
     rep.extra["http_expect_proxy_sessions"] = summ.get("http_expect_executed", 0)
     rep.extra["codec_checks"] = summ["codec_checks"]
-    rep.extra["behaviours_generated"] = n_beh[0]
+    rep.extra["behaviours_generated"] = n_beh
     rep.extra["segment_separations"] = [summ["separations_confirmed"], summ["separations"]]
+    rep.extra["late_backend_behaviours"] = [summ.get("late_backend_confirmed", 0), summ.get("late_backend", 0)]
     rep.extra["ipv6_used"] = summ["ipv6"]
     rep.extra["config_loader_modes"] = summ.get("config_modes")
     if "UnixRejected" in devs and summ.get("unix_closed", 0):
         rep.known_finding_seen("unix-family-rejected")
         rep.known["unix-family-rejected"]["n"] += summ["unix_closed"] - 1
+    if summ.get("late_backend", 0) and summ.get("late_backend_confirmed", 0) * 2 < summ["late_backend"]:
+        # pacing could not be established (accept queue trick does not work here): a coverage loss, not a verdict
+        raise vlib.ToolError("late-backend behaviours: only %d of %d connections were really delayed" % (
+            summ.get("late_backend_confirmed", 0), summ["late_backend"]))
 
-    # ---- 4. I->S -------------------------------------------------------------------------------
-    trace = os.path.join(wd, "trace.ndjson")
-    runs = 1200 if thorough else 70
-    dout = vlib.run_harness(bins["drive_tcp"], ["--seed", str(vlib.seed()), "--runs", str(runs), "--threads", "6",
-                                                "--big", "1" if thorough else "0", "--out", trace], timeout=2400)
+    # ---- 4b. I->S -------------------------------------------------------------------------------
     ds = [o for o in dout if o.get("kind") == "summary"]
     if not ds:
         raise vlib.ToolError("drive_tcp produced no summary")
@@ -276,14 +403,35 @@ def run(tier, replay=None):
     tv = validate(wd, trace, relay_open, "trace.cfg")
     rep.add_tlc(tv)
     accepted_runs = ds["runs"]
+    # A rejection whose stuck events include a Stall ("nothing moved for 12 s") depends on time: the session is
+    # driven again alone (same seed = same parameters) with 4x the patience. Reproduced: violation. Not
+    # reproduced: the run is taken out and counted; more than 3 of them: inconclusive (exit 2), never a verdict.
+    unreproduced = []
+    while not tv["accepted"] and "Stall" in stuck_heads(tv["out"]) and len(unreproduced) <= 3:
+        run = stuck_run(tv["out"])
+        solo = os.path.join(wd, "trace_solo_%s.ndjson" % run)
+        vlib.run_harness(bins["drive_tcp"], drive_args + ["--only", str(run), "--patience", "4", "--out", solo], timeout=900)
+        ts = validate(wd, solo, relay_open, "trace_solo.cfg")
+        rep.add_tlc(ts)
+        if not ts["accepted"]:
+            trace, tv = solo, ts
+            break
+        unreproduced.append(run)
+        vlib.log("run %s: stalled under load, fine when driven alone with more patience" % run)
+        trace = drop_run(trace, run, os.path.join(wd, "trace_minus_%d.ndjson" % len(unreproduced)))
+        tv = validate(wd, trace, relay_open, "trace.cfg")
+        rep.add_tlc(tv)
+        accepted_runs -= 1
+    rep.extra["stalls_not_reproduced"] = unreproduced
+    if len(unreproduced) > 3:
+        raise vlib.ToolError("%d sessions stalled under load and none did when driven alone: inconclusive" % len(unreproduced))
     if not tv["accepted"]:
         run = stuck_run(tv["out"])
         evs = run_events(trace, run) if run is not None else []
         head = evs[0] if evs else {}
         klass = "relay:%s/%s" % (head.get("mode", "?"), head.get("scenario", "?"))
-        m = re.search(r'"STUCK-HEADS",(.*?)(?:Model checking|$)', tv["out"], re.S)
         rep.violation(klass, "trace not explained by TcpRelay (run %s: %s of %s events): %s" % (
-            run, tv["consumed"], tv["total"], re.sub(r"\s+", " ", m.group(1))[:400] if m else ""),
+            run, tv["consumed"], tv["total"], stuck_heads(tv["out"])[:400]),
             "\n".join(json.dumps(e) for e in evs + [{"ev": "reset", "run": -1, "n": [0, 0, 0, 0]}]) + "\n",
             name="trace_run_%s.ndjson" % run)
         accepted_runs = 0
@@ -332,16 +480,18 @@ def run(tier, replay=None):
     rep.cov["traces_validated_against_impl"] = executed + accepted_runs
     rep.cov["distinct_nontrivial"] = executed + len(ds.get("by_scenario", {}))
     rep.cov["exhaustive"] = False
-    rep.cov["rule"] = ("replay leg: distinct (mode, header class, payload length, segmentation) behaviours of ProxyProtocol.tla "
-                       "executed against the real worker (a seeded sample of %d generated; per class always the unsplit stream "
-                       "and the split right after the header); trace leg: distinct (mode, scenario) kinds among %d recorded "
-                       "sessions; distinct_nontrivial = behaviours executed + session kinds" % (n_beh[0], ds["runs"]))
+    rep.cov["rule"] = ("replay leg: distinct (mode, header class, payload length, segmentation, accept point of the backend) "
+                       "behaviours of ProxyProtocol.tla executed against the real worker (a seeded sample of %d generated; per "
+                       "class always the unsplit stream and the split right after the header; every total header length "
+                       "16..240 of every family); trace leg: distinct (mode, scenario) kinds among %d recorded sessions "
+                       "(free-running and paced); distinct_nontrivial = behaviours executed + session kinds" % (n_total, ds["runs"]))
     with open(trace) as f:
         for line in f:
             o = json.loads(line)
-            if o.get("ev") == "reset" and o.get("scenario") == "back_fin" and o.get("n_b", 0) > 100000:
-                rep.add_samples([{"relay_session": {k: o[k] for k in ("mode", "scenario", "n_c", "n_b", "p_b", "slow_client_reader",
-                                                                      "slow_backend_reader", "rcvbuf") if k in o}}], 1)
+            if o.get("ev") == "reset" and o.get("scenario") in ("back_fin", "paced_tail_fin") and o.get("n_b", 0) > 100000:
+                rep.add_samples([{"relay_session": {k: o[k] for k in ("mode", "scenario", "subject", "n_c", "n_b", "p_b", "slow_client_reader",
+                                                                      "slow_backend_reader", "rcvbuf", "natural_buffers", "sozu_sndbuf_forced",
+                                                                      "fin_pause_ms", "resume_pause_ms", "notes") if k in o}}], 1)
                 break
     rep.extra["relay_sessions"] = ds["by_scenario"]
     rep.extra["relay_bytes"] = ds["bytes"]
@@ -353,6 +503,14 @@ def run(tier, replay=None):
         "kernel at that moment may be cut (modelled as the code's policy, see spec/TcpRelay.tla)",
         "black-box pacing: segment separation is confirmed through the kernel's receive-queue length of sozu's socket "
         "(sock_diag); TLS pipes and the splice(2) feature build are not driven (WebSocket-upgraded plain HTTP sessions are)",
+        "a backend that accepts late is concretised by holding its accept queue full (listen backlog 0 + one connection "
+        "of our own): the kernel drops sozu's SYN and its retransmission (1 s later) gets through once the queue was "
+        "emptied; needs tcp_abort_on_overflow = 0 (the default); the listener's connect_timeout is 20 s on those clusters",
+        "paced sessions shrink SO_SNDBUF of the worker's own sockets (found by address pair among the descriptors of "
+        "the process, worker threads are in-process) in most sessions: kernel buffer sizes are environment (tcp_wmem); "
+        "the other sessions use the host's defaults with 5-24 MB transfers; queue probes (TIOCOUTQ, sock_diag) only "
+        "decide when a peer acts, never a verdict; a verdict that depends on a 12 s silence is re-examined alone with "
+        "4x patience and otherwise dropped (more than 3: exit 2)",
         "partial writes of the generated/relayed header cannot be forced from outside (<= 232 bytes on a fresh socket); "
         "they are covered at model level only",
     ]
